@@ -5288,12 +5288,16 @@ func readWithRuns(b *Bitmap, data []byte, pos int, keyN uint32) error {
 		switch c.typ() {
 		case containerRun:
 			runCount := binary.LittleEndian.Uint16(data[pos : pos+runCountHeaderSize])
-			c.setRuns((*[0xFFFFFFF]interval16)(unsafe.Pointer(&data[pos+runCountHeaderSize]))[:runCount:runCount])
-			runs := c.runs()
-
-			for o := range runs { // must convert from start:length to start:end :(
+			// The official format stores start:length, we need start:last. The
+			// input may be mapped read-only and belongs to the caller, so the
+			// converted runs go to storage of our own.
+			runs := make([]interval16, runCount)
+			copy(runs, (*[0xFFFFFFF]interval16)(unsafe.Pointer(&data[pos+runCountHeaderSize]))[:runCount:runCount])
+			for o := range runs {
 				runs[o].last = runs[o].start + runs[o].last
 			}
+			c.setRuns(runs)
+			c.setMapped(false)
 			pos += int((runCount * interval16Size) + runCountHeaderSize)
 		case containerArray:
 			c.setArray((*[0xFFFFFFF]uint16)(unsafe.Pointer(&data[pos]))[:c.N():c.N()])
